@@ -24,8 +24,8 @@ PROBES = ['foreign_exception_propagated', 'caught_at_first_position',
           'caught_at_last_position', 'several_positions_dropped', 'subclass_caught',
           'items_iteration_with_drop']
 BUDGET = {
-    'quick': {'families': 2500, 'wall_cap': 240, 'shrink_s': 10},
-    'thorough': {'families': 100000, 'wall_cap': 3000, 'shrink_s': 30},
+    'quick': {'families': 20000, 'wall_cap': 420, 'shrink_s': 10},
+    'thorough': {'families': 200000, 'wall_cap': 5400, 'shrink_s': 30},
 }
 COMPONENTS = {
     'real': ['lazy_dataset.core.CatchExceptionDataset, FilterDataset, Dataset.filter(lazy=False), '
